@@ -9,6 +9,7 @@ import LolHtml.Lane.Enc
 import LolHtml.Lane.Esc
 import LolHtml.Lane.CApi
 import LolHtml.Lane.Sel
+import LolHtml.Lane.Edit
 
 namespace LolHtml.Lane
 
@@ -16,6 +17,7 @@ namespace LolHtml.Lane
 def registry : List (String × (String → String)) :=
   [ ("echo", Echo.run),
     ("lex", Lex.run),
+    ("fault", Lex.runFault),
     ("selpure", SelPure.run),
     ("mem", Mem.run),
     ("memts", MemTs.run),
@@ -24,7 +26,8 @@ def registry : List (String × (String → String)) :=
     ("enc", Enc.run),
     ("esc", Esc.run),
     ("capi", CApi.run),
-    ("sel", Sel.run) ]
+    ("sel", Sel.run),
+    ("edit", Edit.run) ]
 
 def find (name : String) : Option (String → String) :=
   (registry.find? (·.1 == name)).map (·.2)
